@@ -199,6 +199,22 @@ KrumScores(A, B, f) ==
     IN  TLCEval([i \in RR |-> [l1lo |-> Sum(i, L1lo), l1hi |-> Sum(i, L1hi), l0lo |-> Sum(i, L0lo),
                                l0hi |-> Sum(i, L0hi), w |-> Sum(i, W), n1 |-> Sum(i, N1), near |-> Near[i]]])
 
+\* implementation-shaped neighbourhood (krum.py): the n_closest + 1 smallest entries of row i of the
+\* distance matrix INCLUDING the self-distance, of which the first is dropped - against the property
+\* layer's "m - f - 2 nearest OTHER rows"; compared as bags of distances (equal bags = equal scores)
+KrumImplNeighboursAreProp(A, B, f) ==
+    LET mm   == Len(A)
+        RR   == 1..mm
+        ncl  == mm - f - 2
+        D    == TLCEval([i \in RR |-> TLCEval([j \in RR |-> Dist2(A, B, i, j)])])
+        Before(i, l, j) == DLess(D[i][l], D[i][j]) \/ (D[i][l] = D[i][j] /\ l < j)
+        PosAll(i, j)    == Cardinality({l \in RR : Before(i, l, j)})
+        PosOthers(i, j) == Cardinality({l \in RR \ {i} : Before(i, l, j)})
+        ImplNear(i) == {j \in RR : PosAll(i, j) >= 1 /\ PosAll(i, j) <= ncl}
+        PropNear(i) == {j \in RR \ {i} : PosOthers(i, j) < ncl}
+        Bag(i, S)   == [d \in {D[i][j] : j \in S} |-> Cardinality({j \in S : D[i][j] = d})]
+    IN  \A i \in RR : Bag(i, ImplNear(i)) = Bag(i, PropNear(i))
+
 \* score si is DEFINITELY smaller than score sj.
 \* (1) the S-parts are separated by >= S/1000 while everything else is bounded by w:
 \*     |sqrt(A + B S + C S^2) - S sqrt(C)| <= |B| + A for C >= 1, and sqrt(A) <= A;
@@ -275,6 +291,7 @@ KrumChecks == (kind = "krum" /\ status = "ok") =>
                  /\ KrumWellDefinedOn(ka, Rows)
                  /\ KrumIgnoresFarRowsOn(ka, JB, par)
                  /\ SlackOKOn(ka)
+KrumImplIsProp == (kind = "krum" /\ status = "ok") => KrumImplNeighboursAreProp(JA, JB, par)
 \* the three clauses separately (used to name the failing one when KrumChecks is violated)
 KrumWellDefined    == (kind = "krum" /\ status = "ok") => KrumWellDefinedOn(KrumAll(JA, JB, par), Rows)
 KrumIgnoresFarRows == (kind = "krum" /\ status = "ok") => KrumIgnoresFarRowsOn(KrumAll(JA, JB, par), JB, par)
